@@ -273,8 +273,6 @@ func (ot *objectTree) AddContentWithValidator(ctx context.Context, content Signa
 	objChange.OrderId = lexId.Next(ot.tree.attached[ot.tree.lastIteratedHeadId].OrderId)
 	if content.IsSnapshot {
 		objChange.SnapshotCounter = ot.tree.root.SnapshotCounter + 1
-		// clearing tree, because we already saved everything in the last snapshot
-		ot.tree = &Tree{}
 	}
 	storageChange := StorageChange{
 		RawChange:       rawChange.RawChange,
@@ -290,6 +288,10 @@ func (ot *objectTree) AddContentWithValidator(ctx context.Context, content Signa
 		if err != nil {
 			return
 		}
+	}
+	if content.IsSnapshot {
+		// clearing tree, because we already saved everything in the last snapshot
+		ot.tree = &Tree{}
 	}
 	err = ot.tree.AddMergedHead(objChange)
 	if err != nil {
